@@ -61,7 +61,7 @@ let run_pr (toks : string list) : string =
         | 'x' -> PagedReader.PrReadExact (n_of_decimal arg)
         | 'a' -> PagedReader.PrAlign
         | _ -> failwith ("bad pr op " ^ t)) ops in
-    let d0 = Device.dev_init (bytes_of_hex devhex) (fault_of fault) in
+    let d0 = Device.dev_init (resolve_dev devhex) (fault_of fault) in
     let (d1, r) = PagedReader.pr_new (n_of_decimal ps) d0 in
     (match r with
      | Prelude.Ok s ->
@@ -290,14 +290,19 @@ let fnv_string (s : string) : string =
   String.iter (fun c -> h := fnv_byte !h (Char.code c)) s;
   fnv_hex !h
 
-let raw_summary (s : PagedReader.pr) (fo : BinNums.coq_N) (recs : BinNums.coq_N) (proto : Record.dtype list) : string =
+let raw_summary_st (limit : int option) (s : PagedReader.pr) (fo : BinNums.coq_N) (recs : BinNums.coq_N) (proto : Record.dtype list)
+  : PagedReader.pr * string =
   let (s1, r) = Prog.rrun (QueueReader.raw_new fo recs proto) s in
-  match r with
+  let last = ref s1 in
+  let txt = match r with
   | Prelude.Ok it ->
     let buf = Buffer.create 256 in
     let count = ref 0 in
     let rec loop s it =
+      last := s;
+      if (match limit with Some n -> !count >= n | None -> false) then "none" else
       let (s', r) = Prog.rrun (QueueReader.raw_next s.PagedReader.pr_log_size it) s in
+      last := s';
       match r with
       | Prelude.Ok (it', QueueReader.Item p) ->
         if !count > 0 then Buffer.add_char buf ';';
@@ -311,7 +316,10 @@ let raw_summary (s : PagedReader.pr) (fo : BinNums.coq_N) (recs : BinNums.coq_N)
     Printf.sprintf "n=%d end=%s h=%s%s" !count fin (fnv_string txt)
       (if String.length txt <= 1500 then " pts=" ^ txt else "")
   | Prelude.Err k -> "new:e" ^ err_name k
-  | Prelude.Panic -> "new:P"
+  | Prelude.Panic -> "new:P" in
+  (!last, txt)
+
+let raw_summary s fo recs proto = snd (raw_summary_st None s fo recs proto)
 
 (* FW <fault> item... X:<xmlhex> [DUMP] : run the writer program; items one by one so that the
    result of each call is visible, the writer lives on after a failed item as in the API;
@@ -357,7 +365,7 @@ let run_fw (toks : string list) : string =
        let (s4, _) = PagedWriter.pw_drop !st in
        let d = s4.PagedWriter.pw_dev in
        let rb =
-         match FileBin.reader_open (Device.dev_init d.Device.d_bytes None) with
+         match ReaderOpen.reader_open (Device.dev_init d.Device.d_bytes None) with
          | (_, Prelude.Ok ((rs, _), _)) ->
            String.concat "" (Stdlib.List.map (fun (it, o) ->
                match it, o with
@@ -380,8 +388,8 @@ let run_fw (toks : string list) : string =
 let run_rawrd (toks : string list) : string =
   match toks with
   | [fault; devhex; fo; recs; proto] ->
-    let d0 = Device.dev_init (bytes_of_hex devhex) (fault_of fault) in
-    (match FileBin.reader_open d0 with
+    let d0 = Device.dev_init (resolve_dev devhex) (fault_of fault) in
+    (match ReaderOpen.reader_open d0 with
      | (_, Prelude.Ok ((s, _), _)) -> raw_summary s (n_of_decimal fo) (n_of_decimal recs) (parse_proto proto)
      | (_, Prelude.Err k) -> "open:e" ^ err_name k
      | (_, Prelude.Panic) -> "open:P")
@@ -391,8 +399,8 @@ let run_rawrd (toks : string list) : string =
 let run_open (toks : string list) : string =
   match toks with
   | [fault; devhex] ->
-    let d0 = Device.dev_init (bytes_of_hex devhex) (fault_of fault) in
-    (match FileBin.reader_open d0 with
+    let d0 = Device.dev_init (resolve_dev devhex) (fault_of fault) in
+    (match ReaderOpen.reader_open d0 with
      | (d, Prelude.Ok ((_, h), xml)) ->
        Printf.sprintf "ok phys=%s xoff=%s xlen=%s xml=%s ops=%d" (decimal_of_n h.FileBin.h_phys_length)
          (decimal_of_n h.FileBin.h_xml_offset) (decimal_of_n h.FileBin.h_xml_length)
@@ -405,8 +413,8 @@ let run_open (toks : string list) : string =
 let run_blobrd (toks : string list) : string =
   match toks with
   | [fault; devhex; off; ln] ->
-    let d0 = Device.dev_init (bytes_of_hex devhex) (fault_of fault) in
-    (match FileBin.reader_open d0 with
+    let d0 = Device.dev_init (resolve_dev devhex) (fault_of fault) in
+    (match ReaderOpen.reader_open d0 with
      | (_, Prelude.Ok ((s, _), _)) ->
        let (_, r) = Prog.rrun (FileBin.blob_read s.PagedReader.pr_log_size (n_of_decimal off) (n_of_decimal ln)) s in
        (match r with
@@ -421,7 +429,7 @@ let run_blobrd (toks : string list) : string =
 let run_vcrc (toks : string list) : string =
   match toks with
   | [fault; devhex] ->
-    (match FileBin.validate_crc (Device.dev_init (bytes_of_hex devhex) (fault_of fault)) with
+    (match FileBin.validate_crc (Device.dev_init (resolve_dev devhex) (fault_of fault)) with
      | (_, Prelude.Ok ps) -> "ok " ^ decimal_of_n ps
      | (_, Prelude.Err k) -> "e" ^ err_name k
      | (_, Prelude.Panic) -> "P")
@@ -430,11 +438,41 @@ let run_vcrc (toks : string list) : string =
 let run_rawxml (toks : string list) : string =
   match toks with
   | [fault; devhex] ->
-    (match FileBin.raw_xml (Device.dev_init (bytes_of_hex devhex) (fault_of fault)) with
+    (match ReaderOpen.raw_xml (Device.dev_init (resolve_dev devhex) (fault_of fault)) with
      | (_, Prelude.Ok xml) -> Printf.sprintf "ok n=%d h=%s" (Stdlib.List.length xml) (fnv_hex (fnv_bytes fnv_init xml))
      | (_, Prelude.Err k) -> "e" ^ err_name k
      | (_, Prelude.Panic) -> "P")
   | _ -> failwith "bad RAWXML case"
+
+(* SESS <fault> <devhex> op... : several read operations on ONE reader *)
+let run_sess (toks : string list) : string =
+  match toks with
+  | fault :: devhex :: ops ->
+    let d0 = Device.dev_init (resolve_dev devhex) (fault_of fault) in
+    (match ReaderOpen.reader_open d0 with
+     | (_, Prelude.Ok ((s, _), xml)) ->
+       let st = ref s in
+       let outs = ref ["open:ok"] in
+       Stdlib.List.iter (fun t ->
+           let o = match String.split_on_char ':' t with
+             | ["X"] -> "xml=" ^ fnv_hex (fnv_bytes fnv_init xml)
+             | ["R"; fo; recs; proto; limit] ->
+               let lim = if limit = "all" then None else Some (int_of_string limit) in
+               let (s', txt) = raw_summary_st lim !st (n_of_decimal fo) (n_of_decimal recs) (parse_proto proto) in
+               st := s'; txt
+             | ["B"; off; ln] ->
+               let (s', r) = Prog.rrun (FileBin.blob_read !st.PagedReader.pr_log_size (n_of_decimal off) (n_of_decimal ln)) !st in
+               st := s';
+               (match r with
+                | Prelude.Ok data -> Printf.sprintf "ok n=%d h=%s" (Stdlib.List.length data) (fnv_hex (fnv_bytes fnv_init data))
+                | Prelude.Err k -> "e" ^ err_name k
+                | Prelude.Panic -> "P")
+             | _ -> failwith ("bad sess op " ^ t) in
+           outs := o :: !outs) ops;
+       String.concat " # " (Stdlib.List.rev !outs)
+     | (_, Prelude.Err k) -> "open:e" ^ err_name k
+     | (_, Prelude.Panic) -> "open:P")
+  | _ -> failwith "bad SESS case"
 
 let run_crc (toks : string list) : string =
   match toks with
@@ -450,12 +488,14 @@ let () =
         try
           match split_ws line with
           | [] -> ""
+          | ["BASE"; name; hex] -> register_base name hex; ""
           | "PW" :: r -> run_pw r
           | "PR" :: r -> run_pr r
           | "CRC" :: r -> run_crc r
           | "PWS" :: r -> run_pws r
           | "FW" :: r -> run_fw r
           | "RAWRD" :: r -> run_rawrd r
+          | "SESS" :: r -> run_sess r
           | "OPEN" :: r -> run_open r
           | "BLOBRD" :: r -> run_blobrd r
           | "VCRC" :: r -> run_vcrc r
